@@ -597,11 +597,11 @@ package fr
 //@ loop 0 invariant 0 - 1 <= i && *z == frpow(x, H) && H >= 1 && H == (*exponent >> (i + 1)) && *exponent >= 1
 
 // ---- Legendre symbol (C15), field view: Euler exponent (r-1)/2 through the proved Exp
-//@ pkginv _bLegendreExponentElement != nil && *_bLegendreExponentElement == 6554484396890773809930967563523245729654577946720285125893201653364843836400
+//@ pkginvlocal _bLegendreExponentElement != nil && *_bLegendreExponentElement == 6554484396890773809930967563523245729654577946720285125893201653364843836400
 //@ func Element.Legendre
 //@ props C15
 //@ view opaque
-//@ prelude field frpowdecl
+//@ prelude field frpowdecl frmlimb
 //@ ensures (result == 0) == (frpow(*z, 6554484396890773809930967563523245729654577946720285125893201653364843836400) == fr_zero)
 //@ ensures (result == 1) == (frpow(*z, 6554484396890773809930967563523245729654577946720285125893201653364843836400) == fr_one)
 //@ ensures result == 0 || result == 1 || result == 0 - 1
